@@ -70,7 +70,7 @@ def run(tier, seed, replay=None):
         files = sorted(f for f in os.listdir(samples_dir) if f.endswith(".nif"))
         # geometry kinds no sample contains: API-built files (strip shapes incl. a degenerate 2-point strip; plain shapes)
         files += ["@synth:strips:ob", "@synth:strips:fo3", "@synth:strips:sk", "@synth:shape:ob", "@synth:shape:sk",
-                  "@synth:shape:sse", "@synth:shape:fo4", "@synth:shape:fo76"]
+                  "@synth:shape:sse", "@synth:shape:fo4", "@synth:shape:fo76", "@synth:sits:fo4", "@synth:sits:fo76"]
         b = be.par_run(asan, "trunc", ["bounds name=%s" % f for f in files], timeout=120, env=env)
         fcases = []
         for f, (_, l, crash) in zip(files, b):
